@@ -91,16 +91,16 @@ fn run_check_order(kinds: [u8; 3]) {
   ::std::mem::forget(pie);
 }
 
-//@h props=C02,C09,C18 tier=quick unwind=14 stubs=sort,optref,boxslice timeout=900 fieldsens=1024
+//@h props=C09,C02:t,C18:t tier=quick unwind=14 stubs=sort,optref,boxslice timeout=900 fieldsens=1024
 fn td_check_order_read_read_read() { run_check_order([0, 2, 1]); }
-//@h props=C02,C09,C18 tier=quick unwind=14 stubs=sort,optref,boxslice timeout=900 fieldsens=1024
+//@h props=C02,C09:t,C18:t tier=quick unwind=14 stubs=sort,optref,boxslice timeout=900 fieldsens=1024
 fn td_check_order_read_require_read() { run_check_order([2, 3, 0]); }
-//@h props=C02,C09,C18 tier=quick unwind=14 stubs=sort,optref,boxslice timeout=900 fieldsens=1024
+//@h props=C18,C02:t,C09:t tier=quick unwind=14 stubs=sort,optref,boxslice timeout=900 fieldsens=1024
 fn td_check_order_require_read_require() { run_check_order([3, 2, 3]); }
 
 /// make_task_consistent on a task whose only recorded dependency is a read of Cell(1): executes iff the checker reports
 /// inconsistency (or errs), at most once per session; a second call in the same session executes nothing.
-//@h props=C02,C09,C18 tier=quick unwind=14 stubs=sort,optref,boxslice timeout=900 fieldsens=1024
+//@h props=C02,C18,C08,C09:t tier=quick unwind=14 stubs=sort,optref,boxslice timeout=900 fieldsens=1024
 fn td_make_consistent_once() {
   unsafe { PROG[0] = [Ins::Read(1, M_EXACT), Ins::End, Ins::End, Ins::End]; }
   let mut pie = Pie::with_tracker(());
@@ -160,7 +160,7 @@ fn td_make_consistent_once() {
 
 /// One-level `require` from inside an executing task: the recorded dependency carries the checker passed and the stamp of
 /// the output returned to the requirer; a reserved edge is upgraded in place.
-//@h props=C09,C08 tier=quick unwind=14 stubs=sort,optref,boxslice timeout=900 fieldsens=1024
+//@h props=C09,C08:t tier=quick unwind=14 stubs=sort,optref,boxslice timeout=900 fieldsens=1024
 fn td_require_records_stamp_of_returned_output() {
   let mut pie = Pie::with_tracker(());
   let mut s = pie.new_session();
